@@ -121,6 +121,10 @@ Definition props_fit (ps : list prop) : bool := N.of_nat (length (enc_props_body
 Definition vprops_ok (v : ver) (loc : N) (ps : list prop) : bool :=
   if is_v5 v then props_valid loc ps && props_fit ps else match ps with [] => true | _ => false end.
 
+(* Subscription Options (3.8.3.1): QoS 0..2, Retain Handling 0..2, bits 6-7 reserved; v3.1.1: QoS only *)
+Definition sub_opts_ok (v : ver) (o : N) : bool :=
+  if is_v5 v then (o <? 64) && (o mod 4 <=? 2) && ((o / 16) mod 4 <=? 2) else o <=? 2.
+
 Definition pid_ok (idw pid : N) : bool := (1 <=? pid) && (pid <=? pid_max idw).
 
 Definition body_ok (v : ver) (idw : N) (b : body) : bool :=
@@ -143,7 +147,7 @@ Definition body_ok (v : ver) (idw : N) (b : body) : bool :=
     && (if is_v5 v then tail_ok t (ack_rc_ok t) tl else match t_rc tl, t_props tl with None, None => true | _, _ => false end)
   | BSubscribe pid ps es =>
     pid_ok idw pid && vprops_ok v L_SUBSCRIBE ps && negb (match es with [] => true | _ => false end)
-    && forallb (fun e => str_ok (fst e) && (snd e <? 256)) es
+    && forallb (fun e => str_ok (fst e) && sub_opts_ok v (snd e)) es
   | BSuback pid ps codes =>
     pid_ok idw pid && vprops_ok v L_SUBACK ps && negb (match codes with [] => true | _ => false end)
     && forallb (suback_code_ok v) codes
